@@ -8,7 +8,7 @@ HOOK_COMMITS = ["a4754da"]
 CHECKS = {
  # id: (category, technique, level text, level note, design ref)
  "C01": ("exploration", "stateful property-based testing (proptest histories) vs model + own decoder/forest walker",
-         "Thousands of generated update/build histories (7 metrics, pools 1-16, small ids colliding with node ids, split_after/n_trees changing) are executed against the real crate; after every build the raw LMDB dump is decoded by an independent reference codec and walked: every tree reaches exactly the model's items once, no dangling/shared/orphan node. Sampling, not proof; quick = 6 400 histories (incl. 300 of 250-800 items with memory-limited builds 96 in which 4097-9000 ids arrive in one round and 8 with 16 385-24 000 items), thorough = 125 000 + 160 large ones (2-5k items, 130 dims) + 1 500 bulk ones, both build profiles, plus 10 min libFuzzer+ASan over the same interpreter.",
+         "Thousands of generated update/build histories (7 metrics, pools 1-16, small ids colliding with node ids, split_after/n_trees changing) are executed against the real crate; after every build the raw LMDB dump is decoded by an independent reference codec and walked: every tree reaches exactly the model's items once, no dangling/shared/orphan node. Sampling, not proof; quick = 6 400 histories (incl. 300 of 250-800 items with memory-limited builds, 96 in which 4097-9000 ids arrive in one round and 8 with 16 385-24 000 items), thorough = 125 000 + 160 large ones (2-5k items, 130 dims) + 1 500 bulk ones, both build profiles, plus 10 min libFuzzer+ASan over the same interpreter.",
          "Trusts LMDB/heed; x86-64 only; most quick histories hold <= ~1000 items, 96 hold up to ~9000, 8 up to 24 000.", "4 C01"),
  "C02": ("exploration", "property-based testing with an f64 brute-force k-NN oracle",
          "Unlimited-budget queries on generated built indexes are compared with brute force over the model (length, ids, distances within a rigorous rounding bound, order, nothing nearer omitted).", "Tie order unconstrained; accuracy clauses skipped outside the stated float domain.", "4 C02"),
@@ -95,7 +95,7 @@ def main():
                      "kind_free_text": "Rust binary `verif`: proptest-driven generators (TestRunner, fixed seeds from VERIF_SEED, 16 workers), history/script interpreters over the real crate, independent oracles (reference codec, forest walker, f64 brute force, models), shrinking to replay files"}],
         "checks": checks,
         "not_applicable": na,
-        "notes": "All checks: exit 0 held / 1 VIOLATION line / 2 inconclusive (build failure, watchdog, harness problem). Ten genuine defects of the pinned tree (D1-D10) were found by these checks and repaired by fix: commits in /repo; they are listed as fixed in known_findings.json, none is open. seeded/SUMMARY.md lists 107 independently written breaking changes and the checks that catch them.",
+        "notes": "All checks: exit 0 held / 1 VIOLATION line / 2 inconclusive (build failure, watchdog, harness problem). Ten genuine defects of the pinned tree (D1-D10) were found by these checks and repaired by fix: commits in /repo; they are listed as fixed in known_findings.json, none is open. seeded/SUMMARY.md lists 339 independently written breaking changes and the checks that catch them (334; the other 5 lie outside what the properties state, DESIGN 7.1).",
     }
     json.dump(m, open(os.path.join(ROOT, "MANIFEST.json"), "w"), indent=1)
     print("checks:", len(checks), "not_applicable:", len(na))
